@@ -573,6 +573,9 @@ def run(ctx, rep, cases=None):
         # ShapelyPolygon against the Lean polygon model (lean/TPV/Model/Polygon.lean, Props/Polygon.lean)
         import polygon
         polygon.run_stream(ctx, rep)
+        # Point (and products with points), 3-D rotation, TrimeshPolyhedron against lean/TPV/Model/GeomExtra.lean
+        import geomextra
+        geomextra.run_stream(ctx, rep)
 
 
 def replay(ctx, obj):
@@ -582,6 +585,10 @@ def replay(ctx, obj):
     if inp.get("stream") == "polygon":
         import polygon
         polygon.replay(ctx, rep, inp)
+        return common.finish(ctx, rep, lean)
+    if inp.get("stream") == "geomextra":
+        import geomextra
+        geomextra.replay(ctx, rep, inp)
         return common.finish(ctx, rep, lean)
     if "point" in inp:
         case = dict(id=0, mode="replay", dom=inp["dom"], params=sorted(inp["params"].keys()), rows=[(inp["point"], inp["params"])])
